@@ -56,6 +56,19 @@ def bases(seed=0):
             d.update({"fields": ["temp", "density"], "layout": lays["multi" if (gi + nd) % 2 else "nonmono"], "payload": "coded",
                       "seed": seed, "layout_class": "extreme_geometry_%d" % gi, "coords_only": True})
             out.append(d)
+    # six-digit box indices: coordinate validation only (a tolerance relative to the INDEX would hide whole-cell shifts there)
+    d = dict(scope.far_index_meshes(3)[0])
+    d.update(list(scope.geometries(3))[(seed + 1) % 6])
+    d.update({"fields": ["temp", "density"], "layout": [lays["multi"][0] if False else None, None], "payload": "coded", "seed": seed,
+              "layout_class": "far_index", "coords_only": True})
+    out.append(d)
+    # 131 boxes in ONE binary file (more than any chunk size a validator might use, and no multiple of it): edits of the
+    # FabOnDisk lines of the first, middle and last boxes only
+    d = {"ndims": 3, "domain": [262, 2, 2], "levels": [[[[2 * i, 0, 0], [2 * i + 1, 1, 1]] for i in range(131)]]}
+    d.update(list(scope.geometries(3))[seed % 6])
+    d.update({"fields": ["temp", "density"], "payload": "coded", "seed": seed, "layout_class": "many_boxes_one_file", "singles_only": True,
+              "layout": [{"files": [list(range(130, -1, -1))], "nums": [0]}], "mut_filter": {"ops": ["fod"], "boxes": [0, 1, 2, 64, 65, 128, 129, 130]}})
+    out.append(d)
     # seven levels towards the far corner, twelve fields: FAB header lines longer than 100 bytes; single corruptions only
     d = dict(scope.deep_corner_mesh())
     d.update(list(scope.geometries(3))[seed % 6])
@@ -88,6 +101,10 @@ def enumerate_mutants(desc, tier, textual=False, workdir="/dev/shm"):
             if m[0] in ("bound", "index"):
                 out.append(([m], True))
         return out
+    flt = desc.get("mut_filter")
+    if flt:
+        s0 = [m for m in s0 if m[0] in flt["ops"] and m[2] in flt["boxes"]]
+        s1 = []
     for m in s0:
         out.append(([m], False))
     for m in s1:
